@@ -8,9 +8,9 @@ Import ListNotations.
 
 Lemma entry_eqb_eq a b : entry_eqb a b = true <-> a = b.
 Proof.
-  unfold entry_eqb. destruct a as [t1 k1 d1], b as [t2 k2 d2]; simpl.
+  unfold entry_eqb. destruct a as [t1 k1 d1 x1], b as [t2 k2 d2 x2]; simpl.
   rewrite !andb_true_iff, Nat.eqb_eq, !N.eqb_eq. split.
-  - intros [[-> ->] ->]; auto.
+  - intros [[[-> ->] ->] ->]; auto.
   - intros H; inversion H; auto.
 Qed.
 
